@@ -922,6 +922,36 @@ pub fn qos_over_the_wire(q: &QosPolicies, of_reader: bool, le: bool) -> Result<Q
   }
 }
 
+/// like `qos_over_the_wire`, but the parameters with the given ids are taken out of the announcement on its way (a peer
+/// that leaves out a parameter this crate always sends, e.g. the ownership kind next to an ownership strength)
+pub fn qos_over_the_wire_dropping(q: &QosPolicies, of_reader: bool, le: bool, drop: &[u16]) -> Result<QosPolicies, String> {
+  let es = |x: crate::serialization::pl_cdr_adapters::PlCdrSerializeError| format!("{x:?}");
+  let ed = |x: crate::serialization::pl_cdr_adapters::PlCdrDeserializeError| format!("{x:?}");
+  let g = GUID::from_bytes([7u8; 16]);
+  let strip = |bytes: &[u8]| -> Result<Vec<u8>, String> {
+    let mut pl = ParameterList::read_from_buffer_with_ctx(e_of(le), bytes).map_err(|x| x.to_string())?;
+    pl.parameters.retain(|p| !drop.iter().any(|d| ParameterId::read_from_buffer_with_ctx(Endianness::LittleEndian, &d.to_le_bytes()).map(|x| x == p.parameter_id).unwrap_or(false)));
+    pl.write_to_vec_with_ctx(e_of(le)).map_err(|x| x.to_string())
+  };
+  if of_reader {
+    let d = DiscoveredReaderData {
+      reader_proxy: ReaderProxy::new(g, false, vec![], vec![]),
+      subscription_topic_data: SubscriptionBuiltinTopicData::new(g, None, "T".to_string(), "VSample".to_string(), q, None),
+      content_filter: None,
+    };
+    let bytes = strip(&d.to_pl_cdr_bytes(rep(le)).map_err(es)?)?;
+    Ok(DiscoveredReaderData::from_pl_cdr_bytes(&bytes, rep(le)).map_err(ed)?.subscription_topic_data.qos())
+  } else {
+    let d = DiscoveredWriterData {
+      last_updated: std::time::Instant::now(),
+      writer_proxy: WriterProxy { remote_writer_guid: g, unicast_locator_list: vec![], multicast_locator_list: vec![], data_max_size_serialized: None },
+      publication_topic_data: PublicationBuiltinTopicData::new_with_qos(g, None, "T".to_string(), "VSample".to_string(), q, None),
+    };
+    let bytes = strip(&d.to_pl_cdr_bytes(rep(le)).map_err(es)?)?;
+    Ok(DiscoveredWriterData::from_pl_cdr_bytes(&bytes, rep(le)).map_err(ed)?.publication_topic_data.qos())
+  }
+}
+
 /// serialised form of the generated object (parameter list; plain CDR for "pmd")
 pub fn pl_serialize(ty: &str, present: &[String], dfl: &[String], seed: u64, le: bool) -> Result<Vec<u8>, String> {
   let e = |x: crate::serialization::pl_cdr_adapters::PlCdrSerializeError| format!("{x:?}");
